@@ -138,15 +138,15 @@ PROPS["C15"] = {
         SAN("dialect_api", "c15_dialect_api.cpp", [], 60, 900),
         SAN("vpsc", "c01_vpsc.cpp", ["--prop", "C01"], 24, 300, 10, phases=28),
         SAN("routing", "c03_routing.cpp", ["--prop", "C03"], 34, 450, phases=46),
-        SAN("incremental", "c06_incremental.cpp", [], 30, 400, phases=36),
-        SAN("nudging", "c10_nudging.cpp", [], 30, 400, phases=310),
-        SAN("pins", "c11_pins.cpp", [], 30, 300, phases=592),
+        SAN("incremental", "c06_incremental.cpp", [], 32, 420, phases=38),
+        SAN("nudging", "c10_nudging.cpp", [], 30, 400, phases=313),
+        SAN("pins", "c11_pins.cpp", [], 32, 320, phases=648),
         SAN("hyperedges", "c12_hyperedge.cpp", [], 20, 300),
         SAN("cola", "c07_cola.cpp", ["--prop", "C07"], 24, 300, 8, phases=15),
-        SAN("cola_overlap_clusters", "c07_cola.cpp", ["--prop", "C08"], 24, 360, 8, phases=17),
+        SAN("cola_overlap_clusters", "c07_cola.cpp", ["--prop", "C08"], 28, 400, 8, phases=26),
         SAN("overlaps", "c09_overlaps.cpp", [], 10, 100),
         SAN("topology", "c13_topology.cpp", [], 20, 300, phases=13),
-        SAN("hola", "c14_hola.cpp", [], 30, 400, 60, phases=20),
+        SAN("hola", "c14_hola.cpp", [], 32, 400, 60, phases=21),
         SAN("decompositions", "c19_decomp.cpp", [], 24, 300, phases=35),
         SAN("paths", "c17_paths.cpp", [], 10, 60, phases=15),
         SAN("transforms", "c18_transforms.cpp", [], 12, 100, phases=9),
